@@ -42,7 +42,7 @@ ben("generator_writes_temp_then_renames", ["C11", "C15", "C17"], "atomic replace
      ("roberta_generator.py", "    my_file.close()\n", "    my_file.close()\n    os.replace(file_name, final_name)\n")])
 ben("report_writes_temp_then_renames_and_keeps_log", ["C16", "C12"], "atomic replace of the report plus an auxiliary run log under outputs/.log/",
     [("conditionalrewards.py", "    with open(f\"outputs/{file_name}.txt\", \"w\") as file:\n        for name, game in game_resuts.items():",
-      "    import os\n    os.makedirs(\"outputs/.log\", exist_ok=True)\n    with open(\"outputs/.log/runs.log\", \"a\") as log:\n        log.write(file_name + \"\\n\")\n    with open(f\"outputs/{file_name}.txt.part\", \"w\") as file:\n        for name, game in game_resuts.items():"),
+      "    import os\n    os.makedirs(\"outputs/.log\", exist_ok=True)\n    with open(\"outputs/.log/runs.log\", \"a\", encoding=\"utf-8\") as log:\n        log.write(file_name + \"\\n\")\n    with open(f\"outputs/{file_name}.txt.part\", \"w\") as file:\n        for name, game in game_resuts.items():"),
      ("conditionalrewards.py", "            file.write(f\"Total time              : {total_time}\\n\")\n",
       "            file.write(f\"Total time              : {total_time}\\n\")\n    os.replace(f\"outputs/{file_name}.txt.part\", f\"outputs/{file_name}.txt\")\n")])
 
